@@ -192,4 +192,12 @@ def honest (cmds : Nat → Nat × Out) : Runner := fun i lim =>
   | some l => if l ≤ dur then (⟨.timeout, false, false⟩, l) else (fin, dur)
   | none => (fin, dur)
 
+/-- … for a test case with `config.wait`: `wait` ms pass between the computation of the limit and
+    the start of the command (`sleep(wait.timeout)` in `execute_all` comes after the `min`): the
+    limit handed to the runner is not reduced by it, the clock is -/
+def honestWait (cmds : Nat → Nat × Nat × Out) : Runner := fun i lim =>
+  let (wait, dur, fin) := cmds i
+  let r := honest (fun _ => (dur, fin)) i lim
+  (r.1, wait + r.2)
+
 end Scrut.Exec
